@@ -23,6 +23,13 @@ func init() { families["c20"] = runC20; families["c20child"] = runC20Child }
 // args: <kind file|rolling|console|file-ll|rollinglogger> <layout 0|1> <goroutines> <dir> <exitAfter (0 = run until killed)> <durationMs> [<maxAge hours|-> <padding bytes> <bufferCap>]   (the time zone comes from TZ)
 func runC20Child(_ []string, _ *bufio.Writer, args []string) {
 	kind, lay, dir := args[0], args[1] == "1", args[3]
+	// "<kind>-re": the target is given by a RELATIVE path and the configuration is the process's second one (Refresh, a few lines, Destroy, Refresh again)
+	reconf := strings.HasSuffix(kind, "-re")
+	if reconf {
+		kind = strings.TrimSuffix(kind, "-re")
+		os.Chdir(filepath.Dir(dir))
+		dir = "./" + filepath.Base(dir)
+	}
 	ng, _ := strconv.Atoi(args[2])
 	exitAfter, _ := strconv.Atoi(args[4])
 	durMs, _ := strconv.Atoi(args[5])
@@ -98,6 +105,17 @@ func runC20Child(_ []string, _ *bufio.Writer, args []string) {
 		os.Exit(3)
 	}
 	ctx := context.Background()
+	if reconf {
+		for i := 0; i < 3; i++ {
+			log.Infof(ctx, tag, "<id:first.%d>|0", i)
+			fmt.Fprintf(ack, "first.%d\n", i)
+		}
+		log.Destroy()
+		if err := log.Refresh(cfg); err != nil {
+			fmt.Fprintln(ack, "refresh-error", err)
+			os.Exit(3)
+		}
+	}
 	var mu sync.Mutex
 	total := 0
 	end := time.Now().Add(time.Duration(durMs) * time.Millisecond)
